@@ -99,9 +99,9 @@ class StrEval:
                 raise TermError(f"name {e.id}: {err}") from err
         if isinstance(e, ast.Attribute):
             return ("attr", norm(e))
-        if isinstance(e, ast.Tuple):
+        if isinstance(e, ast.Tuple) and not any(isinstance(x, ast.Starred) for x in e.elts):
             return ("tuple", tuple(self.ev(x) for x in e.elts))
-        if isinstance(e, ast.List):
+        if isinstance(e, (ast.List, ast.Tuple)):
             if any(isinstance(x, ast.Starred) for x in e.elts):
                 # [*xs, a, b] = xs + [a, b]
                 acc = None
@@ -146,6 +146,16 @@ class StrEval:
             return ("index", base, i)
         if isinstance(e, ast.Call):
             fn = e.func
+            if isinstance(fn, (ast.Name, ast.Attribute)) and not any(isinstance(a, ast.Starred) for a in e.args):
+                # a NamedTuple of the package built in place: the tuple of its fields
+                d_ = self.ctx.prog.resolve_expr(self.f.module, fn)
+                if d_ is not None and d_.kind == "class" and any(norm(b).split(".")[-1] == "NamedTuple" for b in d_.obj.node.bases):
+                    flds = self.ctx.I.record_fields(d_.obj)
+                    if flds is not None and len(e.args) <= len(flds):
+                        vals = dict(zip(flds, e.args))
+                        vals.update({k.arg: k.value for k in e.keywords if k.arg})
+                        if set(vals) == set(flds):
+                            return ("tuple", tuple(self.ev(vals[fl]) for fl in flds))
             if isinstance(fn, ast.Name) and fn.id == "int" and len(e.args) == 1:
                 return ("int", self.ev(e.args[0]))
             if isinstance(fn, ast.Name) and fn.id == "str" and len(e.args) == 1:
@@ -337,21 +347,52 @@ def topic_map(ctx: Ctx, chk) -> None:
     # qos / payload may travel through a dict literal **params
     qos_ok = any(k.arg == "qos" and norm(k.value) == qp for k in c.keywords)
     payload_ok = any(k.arg == "payload" and norm(k.value) == pp for k in c.keywords) or (len(c.args) > 1 and norm(c.args[1]) == pp)
+    def dict_entries(e, cond, depth=0):
+        """(key, value, condition text | None) of a dict display, with `**{...}`, `**(A if t else B)` and locals bound
+        once written out; None when the expression is not of these forms."""
+        if depth > 4:
+            return None
+        if isinstance(e, ast.Name):
+            la_ = ctx.I.local_assigns(pub).get(e.id) or []
+            if len(la_) == 1 and isinstance(la_[0], ast.expr):
+                return dict_entries(la_[0], cond, depth + 1)
+            outs = []
+            for v_ in la_:
+                if not isinstance(v_, ast.expr):
+                    return None
+                sub_ = dict_entries(v_, cond, depth + 1)
+                if sub_ is None:
+                    return None
+                outs += sub_
+            return outs
+        if isinstance(e, ast.IfExp):
+            a_ = dict_entries(e.body, norm(e.test) if cond is None else f"{cond} and {norm(e.test)}", depth + 1)
+            b_ = dict_entries(e.orelse, f"not {norm(e.test)}" if cond is None else f"{cond} and not {norm(e.test)}", depth + 1)
+            return None if a_ is None or b_ is None else a_ + b_
+        if isinstance(e, ast.Dict):
+            outs = []
+            for dk, dv in zip(e.keys, e.values):
+                if dk is None:
+                    sub_ = dict_entries(dv, cond, depth + 1)
+                    if sub_ is None:
+                        return None
+                    outs += sub_
+                elif isinstance(dk, ast.Constant):
+                    outs.append((dk.value, dv, cond))
+                else:
+                    return None
+            return outs
+        return None
+
     for k in c.keywords:
+        if k.arg is None:
+            for dk_, dv_, cond_ in dict_entries(k.value, None) or []:
+                if dk_ == "qos" and norm(dv_) == qp and cond_ is None:
+                    qos_ok = True
+                # {"payload": payload} if payload else {}: the payload travels whenever it is not empty
+                if dk_ == "payload" and norm(dv_) == pp and cond_ in (None, pp):
+                    payload_ok = True
         if k.arg is None and isinstance(k.value, ast.Name):
-            la = ctx.I.local_assigns(pub).get(k.value.id) or []
-            for v in la:
-                if isinstance(v, ast.IfExp) and norm(v.test) == pp and isinstance(v.body, ast.Dict) and isinstance(v.orelse, ast.Dict) and not v.orelse.keys:
-                    # {"payload": payload} if payload else {}: the payload travels whenever it is not empty
-                    for dk, dv in zip(v.body.keys, v.body.values):
-                        if isinstance(dk, ast.Constant) and dk.value == "payload" and norm(dv) == pp:
-                            payload_ok = True
-                if isinstance(v, ast.Dict):
-                    for dk, dv in zip(v.keys, v.values):
-                        if isinstance(dk, ast.Constant) and dk.value == "qos" and norm(dv) == qp:
-                            qos_ok = True
-                        if isinstance(dk, ast.Constant) and dk.value == "payload" and norm(dv) == pp:
-                            payload_ok = True
             for n in ctx.own_nodes(pub):
                 if isinstance(n, ast.Assign) and isinstance(n.targets[0], ast.Subscript) and norm(n.targets[0].value) == k.value.id and isinstance(n.targets[0].slice, ast.Constant):
                     if n.targets[0].slice.value == "payload" and norm(n.value) == pp:
